@@ -342,6 +342,14 @@ def obligations(tier, seed):
     for K in range(1, 19):
         obs.append(Obligation("C01/colmap/K%d" % K, partial(ob_colmap, K), bound="x_axis_to_column / column_to_x_axis for %d keys, x symbolic integer in [0,512), column symbolic in [0,%d)" % (K, K),
                               max_paths=3000, timeout_s=200))
+    from symx import chrun
+
+    conds = ["read_version", "roundtrip_creator"] if quick else ["read_title", "read_version", "read_creator", "read_source", "read_artist_unicode", "read_audio",
+                                                                "roundtrip_version", "roundtrip_creator", "roundtrip_title_unicode", "roundtrip_source"]
+    for fn in conds:
+        obs.append(Obligation("C01/text/%s" % fn, chrun.run, kind="ch", params=dict(module="ch.osu_meta", func=fn, timeout=20 if quick else 60),
+                              bound="CrossHair: %s with a symbolic str of length <= 4 (no line breaks), %d s" % (fn, 20 if quick else 60), timeout_s=200,
+                              assumptions=["engine CH: CrossHair 0.0.110 executes OsuMapMeta._read_meta_string_list / write_meta_string_list on a symbolic str; 'Not confirmed' within the time limit is inconclusive"]))
     keys = ("Title", "Version", "Creator", "Source", "AudioFilename", "TitleUnicode") if quick else ("Title", "TitleUnicode", "Artist", "ArtistUnicode", "Creator", "Version", "Source", "AudioFilename")
     for key in keys:
         for v in META_VALUES:
